@@ -39,6 +39,10 @@ pub struct Case {
     /// then answer) instead of answering itself
     #[serde(default)]
     pub referral_first: bool,
+    /// cached CNAMEs at names outside every authoritative zone pointing at a
+    /// name inside one: (alias, target, tag)
+    #[serde(default)]
+    pub cache_aliases: Vec<(N, N, u8)>,
 }
 
 const CACHE_TTL_BASE: u32 = 7_000;
@@ -152,11 +156,30 @@ impl Prop for LocalWins {
                 (g.pick(&names), g.pick(&[T_A, T_AAAA, T_CNAME, T_NS, T_TXT, T_MX]), g.u8())
             }
         });
+        // cached aliases from outside into the authoritative zones (at owned
+        // names, which the cache entries above poison, and at names the zone
+        // does not define)
+        let auth_owners: Vec<N> = zones
+            .iter()
+            .filter(|z| z.model.soa.is_some())
+            .flat_map(|z| z.model.recs.iter().filter(|r| !r.wild).map(|r| r.owner.clone()).chain(std::iter::once(z.model.apex.child(b"undefined"))).collect::<Vec<_>>())
+            .collect();
+        let cache_aliases: Vec<(N, N, u8)> = if !auth_owners.is_empty() && g.chance(1, 3) {
+            g.vec(1, 3, |g| (g.pick(&[N::parse("alias.outside."), N::parse("ext.lan."), N::parse("www.other.net.")]), g.pick(&auth_owners), g.u8()))
+        } else {
+            vec![]
+        };
         let questions = g.vec(1, 8, |g| {
-            let name = if !owners.is_empty() && g.chance(1, 2) { g.pick(&owners).0 } else { g.pick(&names) };
+            let name = if !cache_aliases.is_empty() && g.chance(1, 3) {
+                g.pick(&cache_aliases).0
+            } else if !owners.is_empty() && g.chance(1, 2) {
+                g.pick(&owners).0
+            } else {
+                g.pick(&names)
+            };
             WQ { name, qtype: g.pick(&[T_A, T_A, T_AAAA, T_NS, T_CNAME, T_MX, T_TXT, T_SOA, Q_ANY, Q_AXFR]), qclass: 1 }
         });
-        Case { zones, hosts, cache, questions, mode: g.below(3) as u8, referral_first: g.bool() }
+        Case { zones, hosts, cache, questions, mode: g.below(3) as u8, referral_first: g.bool(), cache_aliases }
     }
 
     fn check(&self, c: &Case) -> Outcome {
@@ -213,6 +236,19 @@ impl Prop for LocalWins {
             if let Some(rr) = rr_to_impl(&w) {
                 cache.insert(&rr);
                 poisoned.push(w);
+            }
+        }
+        let mut alias_of: Vec<(N, N)> = Vec::new();
+        for (alias, target, tag) in &c.cache_aliases {
+            // one alias per name (a second CNAME for the same owner would be a different matter)
+            if alias_of.iter().any(|(a, _)| a == alias) || zone_of(&models, alias).map_or(false, |z| z.soa.is_some()) {
+                continue;
+            }
+            let w = WRR { name: alias.clone(), rtype: T_CNAME, rclass: 1, ttl: CACHE_TTL_BASE + u32::from(*tag), data: WData::Name(target.clone()) };
+            if let Some(rr) = rr_to_impl(&w) {
+                cache.insert(&rr);
+                poisoned.push(w);
+                alias_of.push((alias.lower(), target.lower()));
             }
         }
         // --- the liar upstream
@@ -272,7 +308,13 @@ impl Prop for LocalWins {
 
             // rule 4: a name error only on the word of an authoritative zone
             if let Ok(ResolvedRecord::AuthoritativeNameError { .. }) = &res {
-                let ok = zi.map_or(false, |i| models[i].soa.is_some() && matches!(models[i].lookup_in(&effs[i], &qn, q.qtype), ZR::NameError | ZR::Alias(_)));
+                let says_so = |n: &N| {
+                    models.iter().enumerate().filter(|(_, z)| n.is_at_or_below(&z.apex)).max_by_key(|(_, z)| z.apex.depth()).map_or(false, |(i, z)| {
+                        z.soa.is_some() && matches!(z.lookup_in(&effs[i], n, q.qtype), ZR::NameError | ZR::Alias(_))
+                    })
+                };
+                // ... of the question name, or of the name a cached alias leads to
+                let ok = says_so(&qn) || alias_of.iter().any(|(a, t)| *a == qn && says_so(t));
                 if !ok {
                     return out.fail("name-error-without-authority", what("name error although no authoritative zone says so".into()));
                 }
